@@ -56,6 +56,8 @@ def main():
             wt = '%s/repo_%s' % (w, name)
             sh('git -C /repo worktree add -q --detach %s HEAD' % wt)
             ap = sh('git -C %s apply %s/patch.diff' % (wt, src))
+            if ap.returncode != 0:      # written against an earlier HEAD: merge it (the blobs it names are in the repository)
+                ap = sh('git -C %s apply -3 %s/patch.diff' % (wt, src))
             res = {}
             if ap.returncode != 0:
                 res = {'apply': ap.stderr.strip()[:200]}
